@@ -26,7 +26,8 @@ TRUSTED_BASE = ["not modelled: go/parser and the ANTLR Python lexer/parser (the 
                 "(compared as a multiset)",
                 "the projection compared: names, kinds, membership, parameters, fields, returns, calls "
                 "(package, type, node, function), imports; positions and member ids are not compared"]
-ASSUMPTIONS = ["the file name is demo.go / demo.py (package name of the path is empty), no go.mod, no extensions",
+ASSUMPTIONS = ["the file name is demo.go / demo.py (package name of the path is empty), no go.mod, no extensions; in the "
+               "directory runs every other tree also holds a .gitignore and an ignored generated file next to the source",
                "Go: no top-level var/const specs, no function literals, no local type declarations; identifiers "
                "called as f(...) are not parameters or local variables",
                "Python: no size limit on modules (the lexer's 32-slot token ring used to corrupt modules above about "
@@ -130,7 +131,7 @@ def render_go(f):
     return "\n".join(lines)
 
 # ------------------------------------------------------------------ rendering: Python
-def r_node(n, depth, in_class):
+def r_node(n, depth, in_class, blank=False):
     is_class, decos, name, kids = n
     ind = "    " * depth
     lines = []
@@ -140,14 +141,25 @@ def r_node(n, depth, in_class):
     if not kids:
         return lines + [ind + head + ": pass"]
     lines.append(ind + head + ":")
-    for k in kids:
-        lines += r_node(k, depth + 1, is_class == "1")
+    for i, k in enumerate(kids):
+        if blank and i > 0:
+            lines.append("")                 # the usual blank line between two members of a block
+        lines += r_node(k, depth + 1, is_class == "1", blank)
     return lines
 
 def r_as(na):
     return na[0] + (" as " + na[1] if na[1] else "")
 
+def py_style(m):
+    """layout of the rendered module, a function of the abstract module (so that a case always renders the same):
+    0 compact, 1 blank lines between the members of every block and between declarations, 2 compact with Windows
+    line ends, 3 both"""
+    import zlib
+    return zlib.crc32(vlib.sx_dump(m).encode()) % 4
+
 def render_py(m):
+    style = py_style(m)
+    blank = style in (1, 3)
     lines = []
     for it in m:
         if it[0] == "import":
@@ -156,15 +168,17 @@ def render_py(m):
             body = ", ".join(r_as(na) for na in it[2])
             lines.append("from %s import %s" % (it[1], "(" + body + ")" if it[3] == "1" else body))
         else:
-            lines += r_node(it[1], 0, False)
-    return "\n".join(lines) + "\n"
+            if blank and lines: lines.append("")
+            lines += r_node(it[1], 0, False, blank)
+    text = "\n".join(lines) + "\n"
+    return text.replace("\n", "\r\n") if style in (2, 3) else text
 
 def lexer_load(text):
     """tokens coca's Python lexer leaves queued in its 32-slot ring buffer: one per logical line plus
     one per INDENT/DEDENT. The buffer's growth path was broken (modules above ~30 lines were mis-tokenised);
     repaired in /repo by f146bde, so the generators no longer stay below it (see the py_long stream)"""
     load, stack = 1, [0]
-    for ln in text.split("\n"):
+    for ln in text.replace("\r", "").split("\n"):
         if not ln.strip():
             continue
         ind = len(ln) - len(ln.lstrip(" "))
